@@ -103,6 +103,9 @@ type world struct {
 	release chan bool
 	netDown map[*rlNet]bool
 	holdCh  chan struct{}
+	armFin  bool // the next FinishTask call of the executor is to be held
+	inFin   bool // the worker is parked before its FinishTask call
+	finCh   chan struct{}
 	hung    bool
 }
 
@@ -190,6 +193,38 @@ func (e rlExec) ExecuteTask(ctx context.Context, pid peer.ID, task *peertask.Tas
 	return e.qe.ExecuteTask(ctx, pid, task)
 }
 
+// rlMgr is the Manager given to the query executor: the real ResponseManager, except that the worker's
+// FinishTask round trip can be held back by the script, so that the message queue's notifications for the
+// final message (TerminateRequest / CloseWithNetworkError) are handled by the loop BEFORE finishTask.
+type rlMgr struct {
+	w  *world
+	rm *responsemanager.ResponseManager
+}
+
+func (m rlMgr) StartTask(task *peertask.Task, p peer.ID, ch chan<- queryexecutor.ResponseTask) {
+	m.rm.StartTask(task, p, ch)
+}
+func (m rlMgr) GetUpdates(id graphsync.RequestID, ch chan<- []gsmsg.GraphSyncRequest) {
+	m.rm.GetUpdates(id, ch)
+}
+func (m rlMgr) FinishTask(task *peertask.Task, p peer.ID, err error) {
+	m.w.mu.Lock()
+	hold := m.w.armFin
+	m.w.armFin = false
+	m.w.inFin = hold
+	m.w.mu.Unlock()
+	if hold {
+		select {
+		case <-m.w.finCh:
+		case <-m.w.ctx.Done():
+		}
+		m.w.mu.Lock()
+		m.w.inFin = false
+		m.w.mu.Unlock()
+	}
+	m.rm.FinishTask(task, p, err)
+}
+
 func (w *world) blockHook(p peer.ID, req graphsync.RequestData, bd graphsync.BlockData, ha graphsync.OutgoingBlockHookActions) {
 	idx := w.chain.Index(bd.Link().(cidlink.Link).Cid)
 	w.mu.Lock()
@@ -253,6 +288,7 @@ const (
 	fnSend    = "main.rlSender.SendMsg"
 	fnGate    = "main.(*world).blockHook"
 	fnHold    = "main.rlExec.ExecuteTask"
+	fnFin     = "main.rlMgr.FinishTask"
 	waitLimit = 10 * time.Second
 )
 
@@ -308,7 +344,7 @@ func (w *world) settle() {
 				if w.tq.Stats().Pending > 0 {
 					ok = false // a frozen peer thaws on the worker's own ticker
 				}
-			case g.state == "select" && (strings.HasPrefix(g.first, fnGate) || strings.HasPrefix(g.first, fnHold)):
+			case g.state == "select" && (strings.HasPrefix(g.first, fnGate) || strings.HasPrefix(g.first, fnHold) || strings.HasPrefix(g.first, fnFin)):
 				sawWorker = true
 			case g.state == "select" && (strings.HasPrefix(g.first, fnQueue) || strings.HasPrefix(g.first, fnSend)):
 			case g.state == "sync.Cond.Wait" && strings.Contains(g.body, fnPub):
@@ -359,6 +395,7 @@ var labelTerm = map[string]string{
 	"rcancel/": "LReqCancel", "rupdate/ok": "LReqUpdate UOk", "rupdate/ext": "LReqUpdate UExt", "rupdate/err": "LReqUpdate UErr",
 	"rupdate/unpause": "LReqUpdate UUnpause", "apause/": "LApiPause", "aunpause/": "LApiUnpause", "acancel/": "LApiCancel",
 	"aupdate/": "LApiUpdate", "gate/cont": "LGate GCont", "gate/pause": "LGate GPause", "gate/err": "LGate GErr",
+	"gateh/cont": "LGateHold GCont", "gateh/pause": "LGateHold GPause", "gateh/err": "LGateHold GErr", "finish/": "LFinish",
 	"send/ok": "LSend true", "send/fail": "LSend false", "hold/": "LHold", "release/": "LRelease",
 }
 
@@ -367,7 +404,7 @@ func runCase(c rlCase) (steps []string, finalEntry bool, hung bool) {
 	ctx, cancel := context.WithCancel(context.Background())
 	w := &world{ctx: ctx, cancel: cancel, p: peer.ID("peer-1"), p2: peer.ID("peer-dummy"), rid: graphsync.NewRequestID(),
 		chain: dag.Chain(c.N), ev: map[string]uint64{}, atGate: -1, gateCh: make(chan string), release: make(chan bool),
-		netDown: map[*rlNet]bool{}, holdCh: make(chan struct{})}
+		netDown: map[*rlNet]bool{}, holdCh: make(chan struct{}), finCh: make(chan struct{})}
 	blocks := map[string][]byte{}
 	for _, b := range w.chain.Blocks {
 		blocks[b.Cid.KeyString()] = b.Data
@@ -433,7 +470,7 @@ func runCase(c rlCase) (steps []string, finalEntry bool, hung bool) {
 	procL.Register(func(p peer.ID, r graphsync.RequestData, n int) { w.note("P") })
 	w.tq = taskqueue.NewTaskQueue(ctx)
 	w.rm = responsemanager.New(ctx, lsys, ra, procL, reqHooks, updHooks, complL, cancL, sentL, netL, rlConn{w}, 0, nil, w.tq)
-	qe := queryexecutor.New(ctx, w.rm, blockHooks, updHooks)
+	qe := queryexecutor.New(ctx, rlMgr{w, w.rm}, blockHooks, updHooks)
 	w.rm.Startup()
 	w.tq.Startup(1, rlExec{w, qe})
 	w.settle()
@@ -442,7 +479,7 @@ func runCase(c rlCase) (steps []string, finalEntry bool, hung bool) {
 	for _, l := range c.Labels {
 		ret := uint64(0)
 		w.mu.Lock()
-		atGate, infl := w.atGate, w.infl
+		atGate, infl, inFin := w.atGate, w.infl, w.inFin
 		w.mu.Unlock()
 		switch l.K {
 		case "new":
@@ -464,11 +501,21 @@ func runCase(c rlCase) (steps []string, finalEntry bool, hung bool) {
 			ret = errKind(w.rm.CancelResponse(ctx, w.rid))
 		case "aupdate":
 			ret = errKind(w.rm.UpdateResponse(ctx, w.rid, ext("verif/api")))
-		case "gate":
+		case "gate", "gateh":
 			if atGate < 0 {
 				continue
 			}
+			if l.K == "gateh" {
+				w.mu.Lock()
+				w.armFin = true
+				w.mu.Unlock()
+			}
 			w.gateCh <- l.A
+		case "finish":
+			if !inFin {
+				continue
+			}
+			w.finCh <- struct{}{}
 		case "send":
 			if infl == nil {
 				continue
@@ -487,7 +534,7 @@ func runCase(c rlCase) (steps []string, finalEntry bool, hung bool) {
 			w.release <- l.A == "ok"
 		case "hold":
 			st := w.tq.Stats()
-			if held || atGate >= 0 || st.Active > 0 || st.Pending > 0 {
+			if held || atGate >= 0 || inFin || st.Active > 0 || st.Pending > 0 {
 				continue
 			}
 			held = true
@@ -502,6 +549,9 @@ func runCase(c rlCase) (steps []string, finalEntry bool, hung bool) {
 			continue
 		}
 		w.settle()
+		w.mu.Lock()
+		w.armFin = false // only the run the label started can be held
+		w.mu.Unlock()
 		ps := w.rm.PeerState(w.p)
 		st, tqs := uint64(0), uint64(0)
 		if s, ok := ps.RequestStates[w.rid]; ok {
@@ -521,6 +571,8 @@ func runCase(c rlCase) (steps []string, finalEntry bool, hung bool) {
 		ex := uint64(0)
 		if w.atGate >= 0 {
 			ex = uint64(w.atGate) + 1
+		} else if w.inFin {
+			ex = 50
 		}
 		inflN := uint64(0)
 		if w.infl != nil {
@@ -587,7 +639,11 @@ func genCase(r *rng.R) rlCase {
 			} else if r.P(1, 8) {
 				g = "err"
 			}
-			c.Labels = append(c.Labels, rlLabel{K: "gate", A: g})
+			k := "gate"
+			if r.P(1, 4) {
+				k = "gateh"
+			}
+			c.Labels = append(c.Labels, rlLabel{K: k, A: g})
 		case x < 50:
 			a := "ok"
 			if r.P(1, 3) {
@@ -606,7 +662,9 @@ func genCase(r *rng.R) rlCase {
 			c.Labels = append(c.Labels, rlLabel{K: "acancel"})
 		case x < 93:
 			c.Labels = append(c.Labels, rlLabel{K: "aupdate"})
-		case x < 96:
+		case x < 94:
+			c.Labels = append(c.Labels, rlLabel{K: "finish"})
+		case x < 97:
 			c.Labels = append(c.Labels, rlLabel{K: "hold"})
 		default:
 			c.Labels = append(c.Labels, rlLabel{K: "release"})
@@ -616,10 +674,24 @@ func genCase(r *rng.R) rlCase {
 	// a response still paused is unpaused (the property's assumption) and the tail is repeated
 	tail := func(sendOK func() string) {
 		c.Labels = append(c.Labels, rlLabel{K: "release"})
+		// the last block's release may hold the executor's FinishTask, so that the outcome of the final
+		// message is delivered and fully handled first; then FinishTask goes through
+		holdLast := r.P(1, 2)
 		for i := 0; i < 4; i++ {
-			c.Labels = append(c.Labels, rlLabel{K: "gate", A: "cont"})
+			k := "gate"
+			if holdLast {
+				k = "gateh"
+			}
+			c.Labels = append(c.Labels, rlLabel{K: k, A: "cont"})
+		}
+		if r.P(1, 3) {
+			c.Labels = append(c.Labels, rlLabel{K: "finish"})
 		}
 		for i := 0; i < 6; i++ {
+			c.Labels = append(c.Labels, rlLabel{K: "send", A: sendOK()})
+		}
+		c.Labels = append(c.Labels, rlLabel{K: "finish"})
+		for i := 0; i < 2; i++ {
 			c.Labels = append(c.Labels, rlLabel{K: "send", A: sendOK()})
 		}
 	}
@@ -648,7 +720,7 @@ func tagsOf(c rlCase) []string {
 		has[l.K] = true
 	}
 	var tags []string
-	for _, k := range []string{"new/accept", "new/reject", "new/pause", "new/hookerr", "send/fail", "rcancel", "rupdate", "apause", "acancel", "aupdate", "gate/pause", "gate/err", "hold"} {
+	for _, k := range []string{"new/accept", "new/reject", "new/pause", "new/hookerr", "send/fail", "rcancel", "rupdate", "apause", "acancel", "aupdate", "gate/pause", "gate/err", "gateh", "finish", "hold"} {
 		if has[k] {
 			tags = append(tags, "has:"+k)
 		}
